@@ -1264,8 +1264,11 @@ func (bc *Blockchain) resetStateInternal(height uint32, stage stateChangeStage) 
 		p = time.Now()
 		fallthrough
 	case transfersReset:
-		// there's nothing to do after that, so just continue with common operations
-		// and remove state reset stage in the end.
+		// MPT is already reset in the DB, but if the process is resumed from this
+		// stage the in-memory state root module is not yet initialized.
+		if err = bc.stateRoot.Init(height); err != nil {
+			return fmt.Errorf("can't init MPT at height %d: %w", height, err)
+		}
 	default:
 		return fmt.Errorf("unknown state reset stage: %d", stage)
 	}
